@@ -145,6 +145,10 @@ func (E *Engine) enterLoop(fr *Frame, cur *State, lp *loop, li *loopInfo) {
 		case *Term:
 			v := tb.Fresh(phi.Comment+"$"+phi.Name(), o.sort)
 			E.addFact(cur, E.wellTyped(v, phi.Type(), fr.tenv))
+			if phi.Comment == "rangeindex" && o.sort == SInt {
+				// by construction of range loops the hidden index starts at -1 and only grows
+				E.addFact(cur, tb.Cmp(">=", v, tb.Int(-1)))
+			}
 			E.assumeAllocated(cur, v)
 			fr.env[phi] = v
 		default:
